@@ -111,11 +111,19 @@ func muxBody(name string, seed int64) Body {
 		prob := ""
 		var res []string
 		for i, l := range []int{10, 400, 169, 3000} {
-			payload := make([]byte, l)
-			for j := range payload {
-				payload[j] = byte(0x10 + (j*7+i)%0xd0)
+			// the payload is a window into a larger caller-owned buffer: nothing of that buffer may change
+			backing := make([]byte, l+64)
+			for j := range backing {
+				backing[j] = byte(0x10 + (j*7+i)%0xd0)
 			}
+			payload := backing[16 : 16+l]
 			orig := append([]byte{}, payload...)
+			origBacking := append([]byte{}, backing...)
+			defer func(i int) {
+				if !bytes.Equal(backing, origBacking) && prob == "" {
+					prob = fmt.Sprintf("WriteData call %d modified the caller's buffer outside/inside the payload window", i+1)
+				}
+			}(i)
 			pid := uint16(0x100 + i%2)
 			pts := &astits.ClockReference{Base: int64(i) * 3600}
 			af := &astits.PacketAdaptationField{RandomAccessIndicator: i == 0, HasPCR: true, PCR: &astits.ClockReference{Base: int64(i) * 300, Extension: 11}}
@@ -124,6 +132,17 @@ func muxBody(name string, seed int64) Body {
 				prob = fmt.Sprintf("WriteData call %d modified the caller's payload bytes", i+1)
 			}
 			res = append(res, fmt.Sprintf("n=%d err=%v", n, err))
+		}
+		// WritePacket with a short payload that is a window into a larger caller buffer (the packet is padded)
+		for i, l := range []int{1, 100, 183} {
+			backing := bytes.Repeat([]byte{byte(0x21 + i)}, l+80)
+			origBacking := append([]byte{}, backing...)
+			p := &astits.Packet{Header: astits.PacketHeader{PID: 0x300, HasPayload: true, PayloadUnitStartIndicator: true, ContinuityCounter: uint8(i)}, Payload: backing[8 : 8+l]}
+			n, err := m.WritePacket(p)
+			res = append(res, fmt.Sprintf("pkt n=%d err=%v", n, err))
+			if !bytes.Equal(backing, origBacking) && prob == "" {
+				prob = fmt.Sprintf("WritePacket with a %d-byte payload modified the caller's buffer around the payload", l)
+			}
 		}
 		res = append(res, fmt.Sprintf("%x", w.Buf))
 		return res, prob
